@@ -190,6 +190,27 @@ example : ∃ s' os, run exH id (HT.empty : HT Nat) exOps = some (s', os) ∧ In
   let ⟨s', os, h, hI, _⟩ := reachable_refines exH id (by intro k; unfold exH; omega) exOps
   ⟨s', os, h, hI⟩
 
+/-- The proved part of `sort_orders_keys`: *if* `Memory::Sort` (as modelled by `sortSeg`) leaves the
+slots ordered with respect to the slot comparison - the interface C15 provides - then the live keys
+are in ascending order after `Sort(true)`.  Missing for the full statement: exactly that hypothesis. -/
+theorem sort_orders_keys_partial {V : Type} {H : List Nat → Nat} (ord : Nat → Nat) {s s' : HT V}
+    (hI : Inv H s) (hrun : sort ord s true = some s')
+    (hsorted : ((sortSeg (Spec.slotCmp ord true) ((absSlots s).length + 1) (absSlots s).toArray 0
+      (absSlots s).length).toList).Pairwise (fun a b => Spec.slotCmp (V := V) ord true b a = false)) :
+    (keysOf (absSlots s')).Pairwise (fun a b => isLess ord b a false = false) := by
+  obtain ⟨s2, hrun2, _, habs⟩ := sort_spec ord hI true
+  rw [hrun] at hrun2
+  cases hrun2
+  have hsl : absSlots s' = (Spec.sort ord (abs s) true).slots := by rw [← habs]; rfl
+  rw [hsl]
+  unfold keysOf entries
+  rw [List.pairwise_map]
+  refine List.Pairwise.filterMap _ ?_ hsorted
+  intro a a' hR b hb b' hb'
+  simp only [id] at hb hb'
+  subst hb; subst hb'
+  simpa [Spec.slotCmp, Spec.slotKey] using hR
+
 /-! Non-vacuity of the sentence theorems: a key-level history (all keys collide under `exH`) with a
 removal and a re-insertion; the history function is not constant. -/
 def exKeyOps : List (Op Nat) :=
